@@ -55,6 +55,8 @@ def parseCfg (v io bond : String) : Option Cfg := do
   -- keyboard configurations do not compile with the LESC managers
   if variant ≠ .legacy ∧ input = .keyboard then none
   let b ← parseBool bond
+  -- the harness builds managers without bonding data base for `none` and `dispyn` only
+  if !b ∧ io ≠ "none" ∧ io ≠ "dispyn" then none
   pure { variant := variant, input := input, display := display, bonding := b,
          localAddr := [0xb6, 0xb5, 0xb4, 0xb3, 0xb2, 0xb1, 0],
          remoteAddr := [0xa6, 0xa5, 0xa4, 0xa3, 0xa2, 0xa1, 1] }
